@@ -39,9 +39,9 @@ def real_part(ctx):
     with mp.get_context("spawn").Pool(min(8, len(jobs)), maxtasksperchild=1) as pool:
         outs = pool.map(_loss_job, jobs, chunksize=1)
     fields = ("err", "blocked_done", "blocked_receive", "blocked_waitclose", "items", "later_receive", "receive_again", "later_waitclose", "callback",
-              "joined", "send", "remote_exec", "newchannel", "hasreceiver")
+              "joined", "send", "remote_exec", "newchannel", "hasreceiver", "blocked_fileread", "file")
     dflt = {"err": "", "blocked_done": False, "blocked_receive": "", "blocked_waitclose": "", "items": [], "later_receive": "", "receive_again": "",
-            "later_waitclose": "", "callback": [], "joined": False, "send": "", "remote_exec": "", "newchannel": "", "hasreceiver": True}
+            "later_waitclose": "", "callback": [], "joined": False, "send": "", "remote_exec": "", "newchannel": "", "hasreceiver": True, "blocked_fileread": "", "file": []}
     verdicts = batch.judge("LossCases", [{k: o.get(k, dflt[k]) for k in fields} for o in outs], ctx.scratch)
     hist = {}
     for o, vd in zip(outs, verdicts):
